@@ -106,13 +106,16 @@ Proof. unfold do_taload, ret. destruct (locked s); [destruct a|]; discriminate. 
 Lemma do_llswap_some s t l : do_llswap s t l <> None.
 Proof. unfold do_llswap, ret. destruct l as [[|]| | |]; cbn; destruct (llock _); discriminate. Qed.
 
+Lemma do_wait_some s t c : do_wait s t c <> None.
+Proof. unfold do_wait, ret. destruct c; discriminate. Qed.
+
 Lemma idle_fut_steps s t c : pcs s t = Idle -> fut s t <> None -> mstep s t c <> None.
 Proof.
   intros Epc Hf. unfold mstep. rewrite Epc.
   generalize (prog s t). intros p. revert s Epc Hf. induction p as [|o r IH]; intros s Epc Hf; cbn [dispatch].
   - destruct (fut s t); [apply do_llswap_some|congruence].
   - destruct o; destruct (fut s t) eqn:F; try congruence;
-      try apply do_llswap_some; try apply do_taload_some.
+      try apply do_llswap_some; try apply do_taload_some; try apply do_wait_some.
 Qed.
 
 Definition stuck (s : mstate) (t : nat) : Prop :=
@@ -121,7 +124,7 @@ Definition stuck (s : mstate) (t : nat) : Prop :=
 Lemma disabled_stuck s t c : mstep s t c = None -> stuck s t.
 Proof.
   unfold mstep, stuck. destruct (pcs s t) eqn:Epc; intros H; auto;
-    try (exfalso; revert H; first [apply do_taload_some | apply do_llswap_some]);
+    try (exfalso; revert H; first [apply do_taload_some | apply do_llswap_some | apply do_wait_some]);
     unfold ret, block_next, fix_flags in H.
   all: try discriminate H.
   all: repeat (break_match H; try discriminate H); auto.
@@ -205,7 +208,7 @@ Proof.
   intros R. destruct (Inv_reachable _ _ R) as (_ & _ & P & [C1 C2] & _).
   split; [exact C1|]. intros u Hu. specialize (C2 u). specialize (P u). unfold linkok in C2.
   destruct (fut s u) as [b|] eqn:F; [right; discriminate|]. left.
-  destruct (pcs s u) as [ | a | a sq | l | l | b | l | l | l | q | q | q | q sq | q | q acq | | | | q | q | | | | w | h | | | ];
+  destruct (pcs s u) as [ | a | a sq | l | l | b | l | l | l | q | q | q | q sq | q | q acq | | | | q | q | | | | w | h | | | | ];
     cbn [lk fl insync futok] in *; try reflexivity; try contradiction; try discriminate P; try congruence.
   all: repeat match goal with
               | x : actx |- _ => destruct x
